@@ -36,7 +36,7 @@ PROPS = {
                      'order1 is checked through linear-field reproduction (value and gradient) where the moment matrix has condition '
                      'number < 1e8, and against the brute-force solve otherwise skipped',
                      'ghost creation itself is C07\'s subject: the oracle reads the source arrays as they are (ghosts included)'],
-        quick=dict(runs=1200, budget_s=80),
+        quick=dict(runs=5000, budget_s=80),
         thorough=dict(runs=300000, budget_s=1800),
     ),
 }
